@@ -7,7 +7,8 @@ use serde_json::{json, Value};
 use xplore::*;
 
 fn alphabet() -> Vec<f64> {
-    vec![0.0, -0.0, 5e-324, -2.2250738585072014e-308, 1.0, exact_succ(1.0), 0.1, -0.3333333333333333, 1e300, f64::MAX, -f64::MAX, f64::INFINITY, f64::NEG_INFINITY]
+    vec![0.0, -0.0, 5e-324, -2.2250738585072014e-308, 1.0, exact_succ(1.0), 0.1, -0.3333333333333333, 1e300, f64::MAX, -f64::MAX, f64::INFINITY, f64::NEG_INFINITY,
+         0.1f32 as f64, 1073741824.0, 7.888609052210118e-31, 65504.0, 5.960464477539063e-8, f32::MAX as f64, 1.401298464324817e-45]
 }
 fn exact_succ(x: f64) -> f64 {
     f64::from_bits(x.to_bits() + 1)
@@ -155,12 +156,33 @@ fn main() {
             }
         }
     }
+    // many segments
+    if violation.is_none() {
+        for &pieces in &[33usize, 100, 1000, 4097, 13108, 26215, 65536, 65537, 70000] {
+            for c in cs.iter().filter(|c| c.ty.ends_with("with 1 segments")) {
+                let per = c.n;
+                let mut nums = Vec::with_capacity(pieces * per);
+                for i in 0..pieces {
+                    nums.push(i as f64 * 0.5 - 3.0);
+                    for k in 1..per { nums.push(BG[(i + k) % 4] * (1.0 + k as f64) + (i % 97) as f64); }
+                }
+                execs += 1;
+                states += 1;
+                nontrivial += 1;
+                if let Err((what, _obs)) = (c.run)(&nums) {
+                    violation = Some(json!({"what": format!("{} (x{} segments): {}", c.ty, pieces, what), "type": c.ty, "segments": pieces, "numbers": "pattern i/2-3 ends, background coefficients", "observation": "omitted (long)"}));
+                    break;
+                }
+            }
+            if violation.is_some() { break; }
+        }
+    }
     if samples.is_empty() { samples.push(json!({"type": cs[0].ty, "numbers": fjs(&inputs(cs[0].n, false)[0])})); }
     let part = json!({
         "engine": "exhaustive enumeration of number contents per serializable type, subject built with feature borsh; borsh::to_vec / from_slice",
         "states": states, "transitions": states - 1, "traces_validated_against_impl": execs, "evaluations": execs, "distinct_nontrivial": nontrivial,
         "types": cs.iter().map(|c| c.ty.clone()).collect::<Vec<_>>(), "exhaustive": violation.is_none(),
-        "bounds": "same number alphabet (incl. +-inf), positions sweeps and cubes as the serde phase; 0..4 segments",
+        "bounds": "same number alphabet (incl. +-inf and f32/f16-exact doubles), positions sweeps and cubes as the serde phase; 0..4 segments; plus 33..70000 segments for every Piecewise type",
         "samples": samples, "violation": violation, "wall_s": t0.elapsed().as_secs_f64(),
     });
     std::fs::write(&args[3], serde_json::to_string_pretty(&part).unwrap()).unwrap_or_else(|e| machinery(&format!("cannot write part file: {e}")));
